@@ -40,6 +40,8 @@ CheckDiff(e) ==
                    [modify |-> e.modify, case |-> Key(e)])
             /\ Chk(V(k, e.applied) = b, "C10", "the library applying its own difference to a does not obtain b",
                    [modify |-> e.modify, applied |-> e.applied, case |-> Key(e)])
+       /\ Chk(V(k, e.newVal) = b, "C10", "the new model recorded by the update does not hold the new value",
+              [newVal |-> e.newVal, case |-> Key(e)])
        /\ Chk(V(k, e.aAfter) = a /\ V(k, e.a2After) = a /\ ~e.rewritten, "C10",
               "computing or applying the difference altered the model it was computed from",
               [aAfter |-> e.aAfter, a2After |-> e.a2After, rewritten |-> e.rewritten, case |-> Key(e)])
